@@ -1079,7 +1079,7 @@ func builtins() []*Builtin {
 			}
 			return res, nil
 		}},
-		{"each", []string{"any", "fn"}, 0, c0, func(ev *Evaluator, a []Value) (Value, *Err) {
+		{"each", []string{"any", "fn"}, 0, c1, func(ev *Evaluator, a []Value) (Value, *Err) {
 			m, ok := a[0].(map[string]interface{})
 			if !ok {
 				return Undef, otherErr("each")
@@ -1146,7 +1146,7 @@ func builtins() []*Builtin {
 			}
 			return out, nil
 		}},
-		{"lookup", []string{"any", "str"}, 0, c0, func(ev *Evaluator, a []Value) (Value, *Err) {
+		{"lookup", []string{"any", "str"}, 0, c1, func(ev *Evaluator, a []Value) (Value, *Err) {
 			r := lookupName(str(a[1]), a[0])
 			if s, ok := r.(*Seq); ok {
 				r = s.collapse()
